@@ -1,7 +1,7 @@
 (** C11 — events reach every listening catch event exactly once and delivery never blocks.
     Model: Model/Inbox.v — a catch event as a function of its FIFO message sequence (arming requests
     of arriving tokens and delivered events), and delivery to listeners with bounded inboxes. *)
-From BV Require Import Model.Inbox Proofs.InboxProofs Model.Arming Proofs.ArmingProofs Gen.Facts.
+From BV Require Import Model.Inbox Proofs.InboxProofs Model.Arming Proofs.ArmingProofs Model.Catch Proofs.CatchProofs Gen.Facts.
 
 (* EXACTLY ONCE — for every message history of a listener: every token that armed it has either
    continued exactly once or is still waiting ... *)
@@ -68,3 +68,21 @@ Theorem C11_forwarding_refuted_when_opened_after_arming :
   exists s, aexec false 3 (ainit 3) [AArm; ADeliver 0; AArm; AArm; ASetActive] = Some s /\ dropped s = 1 /\ got s = [0; 0; 0].
 Proof. exact refuted_active_after_arming. Qed.
 Print Assumptions C11_forwarding_refuted_when_opened_after_arming.
+
+(* A BOUNDARY EVENT'S LISTENER STARTS AFRESH WITH EVERY ACTIVATION OF ITS HOST (Model/Catch.v, the message function of
+   event_catch.go with the c_owed events of non-interrupting boundary events): whatever happened before a reset, tokens
+   that arrive after it wait — none continues — until the next event, which then serves exactly those c_waiting *)
+Theorem C11_listener_fresh_after_reset : forall p before n,
+  let s := crun p true (before ++ [CReset] ++ repeat CArm n) in
+  c_conts s = c_conts (crun p true before) /\ c_waiting s = n /\ c_owed s = 0.
+Proof. exact fresh_after_reset. Qed.
+Print Assumptions C11_listener_fresh_after_reset.
+Theorem C11_event_after_reset_serves_the_waiting : forall p before n,
+  c_conts (crun p true (before ++ [CReset] ++ repeat CArm n ++ [CEvent])) = c_conts (crun p true before) + n.
+Proof. exact event_after_reset_serves_the_waiting. Qed.
+Print Assumptions C11_event_after_reset_serves_the_waiting.
+Theorem C11_fresh_start_refuted_when_reset_skips_idle_listeners :
+  let ms := [CArm; CEvent; CEvent; CReset; CArm] in
+  c_conts (crun true false ms) = 2 /\ c_conts (crun true true ms) = 1 /\ c_waiting (crun true true ms) = 1.
+Proof. exact refuted_reset_only_when_waiting. Qed.
+Print Assumptions C11_fresh_start_refuted_when_reset_skips_idle_listeners.
